@@ -88,11 +88,17 @@ CARL = lambda p: [R(0), R(1), R(2), R(1, 2), R(3), (R(0), R(1)), R(1, 1 << 20)]
 TABLE = [
     dict(fn='ellipk', args=one(MPAR), anchors=[('Legendre relation', a_legendre)]),
     dict(fn='ellipe', args=one(MPAR)),
+    # large |m| on the negative axis (the finite-difference step for K' scales with |m|), large positive and complex m
+    dict(fn='ellipe', args=one(lambda p: [R(-(1 << 36)), R(-10 ** 15), mk(1, 3, 100), R(-123456789), R(1 << 40), (R(-(1 << 40)), R(1)), R(-3, 1 << 40)]), budget=30),
+    dict(fn='ellipk', args=one(lambda p: [R(-(1 << 36)), R(-10 ** 15), mk(1, 3, 100), R(-123456789), (R(-(1 << 40)), R(1))]), budget=30),
     dict(fn='ellipf', args=pairs(PHI, lambda p: MPAR(p)[:8]), budget=30),
     dict(fn='ellipe', args=pairs(PHI, lambda p: MPAR(p)[:8]), budget=30),
     dict(fn='ellippi', args=lambda p: [(n, m) for n in (R(1, 4), R(-2), R(1, 2)) for m in (R(1, 2), R(-1), R(1, 1 << 20), R(0))] + [(n, ph, m) for n in (R(1, 4), R(-2)) for ph in (R(1), R(25, 16)) for m in (R(1, 2), R(-1))], budget=40),
     dict(fn='elliprf', args=lambda p: [(x, y, z) for x in CARL(p) for y in CARL(p)[1:4] for z in CARL(p)[2:5]], budget=30),
     dict(fn='elliprc', args=lambda p: [(x, y) for x in CARL(p) for y in (R(1), R(2), R(1, 2), R(-1), (R(0), R(1)))], budget=30),
+    # large arguments that are relatively close (guard bits must follow the RELATIVE closeness), also through elliprf with two equal arguments
+    dict(fn='elliprc', args=lambda p: [(R(1 << 40), R((1 << 40) + 1)), (mk(0, 9, 96), R(9 * (1 << 96) - 7)), (R(1 << 30), R((1 << 30) - 3)), ((R(1 << 40), R(1)), (R((1 << 40) + 2), R(1))), (R(3, 1 << 40), R(3 * (1 << 20) + 1, 1 << 60))], budget=30),
+    dict(fn='elliprf', args=lambda p: [(R(1 << 40), R((1 << 40) + 1), R((1 << 40) + 1)), (R((1 << 30) - 3), R(1 << 30), R(1 << 30)), (R(1 << 40), R(1 << 40), R((1 << 40) + 5))], budget=30),
     dict(fn='elliprj', args=lambda p: [(x, y, z, q) for x in CARL(p)[:4] for y in CARL(p)[1:3] for z in CARL(p)[2:4] for q in (R(1), R(3), R(1, 2), (R(1), R(1)))], budget=40),
     dict(fn='elliprd', args=lambda p: [(x, y, z) for x in CARL(p) for y in CARL(p)[1:4] for z in CARL(p)[1:4]], budget=30),
     dict(fn='elliprg', args=lambda p: [(x, y, z) for x in CARL(p) for y in CARL(p)[:4] for z in CARL(p)[1:4]], budget=30),
